@@ -613,6 +613,56 @@ func (k *checker) runSequential(ld *loaded, us []Upd, id int64) bool {
 	return ok
 }
 
+// hookPhase runs after everything else that is done with the tree (it changes the leaf assignment).
+func (k *checker) hookPhase(ld *loaded, us []Upd, id int64) bool {
+	c := k.c
+	ok := true
+	ld.drain()
+	// The way the core itself moves call roles: collecting the hooks of the tree (Environment does it
+	// at every transition) settles every call role to INVARIANT = "no opinion". The aggregates of all
+	// ancestors must follow, at once and also after later updates elsewhere in the tree.
+	var calls, others []*LNode
+	for _, l := range ld.leaves {
+		if l.Kind == "call" {
+			calls = append(calls, l)
+		} else {
+			others = append(others, l)
+		}
+	}
+	if len(calls) > 0 {
+		if id%2 == 0 {
+			_ = ld.root.Role.GetAllHooks()
+		} else {
+			_ = ld.root.Role.GetHooksMapForTrigger("before_START_ACTIVITY")
+		}
+		for _, l := range calls {
+			l.St = sm.INVARIANT
+		}
+		c.Count("hook_collections", 1)
+		c.Count("call_roles_settled_by_hook_collection", int64(len(calls)))
+		mkW := func(node string) *Witness {
+			w := ld.witness(k.mode, k.ext, us, len(us)-1)
+			w.Node = node + " (after the hooks of the tree were collected: every call role INVARIANT)"
+			return w
+		}
+		if k.checkAll(ld, id, mkW) > 0 {
+			ok = false
+		}
+		ld.drain()
+		// one more update of a leaf that is not a call (another subtree, as a rule), then all nodes again
+		if len(others) > 0 && len(us) > 0 {
+			l := others[int(id)%len(others)]
+			u := mkSt(l.LeafIdx, healthy[int(id)%len(healthy)])
+			ld.apply(u)
+			if k.checkAll(ld, id, mkW) > 0 {
+				ok = false
+			}
+			ld.drain()
+		}
+	}
+	return ok
+}
+
 // runFinalOnly applies us without intermediate checks (second member of a
 // permuted pair) and checks once at the end.
 func (k *checker) runFinalOnly(ld *loaded, us []Upd, id int64) bool {
